@@ -12,15 +12,79 @@ def declare(reg):
                  ensures={"dec": "same(result, seq_dec(contents))"}, **T,
                  note="bounded: expand_sequence(compact_sequence(xs)) == xs exhaustively for all subsets of 0..12 (harness.persist:Codec)")
     reg.specfn("persisted", "m: ref:Mailbox", "bool",
-               "m.g_db_exists and m.g_db_uid_vv == m.uid_vv and m.g_db_next_uid == m.next_uid and same(m.g_db_uids, m.uids) and "
-               "same(m.g_db_msg_keys, m.msg_keys) and m.g_db_subscribed == m.subscribed and m.g_db_num_msgs == m.num_msgs",
+               "m.g_db_exists and m.g_db_uid_vv == m.uid_vv and m.g_db_next_uid == m.next_uid and m.g_db_uids == m.uids and "
+               "m.g_db_msg_keys == m.msg_keys and m.g_db_subscribed == m.subscribed and m.g_db_num_msgs == m.num_msgs",
                doc="the committed sqlite row of the mailbox decodes to its current UID state")
-    # commit_to_db: replace the earlier bare assumption by its C12 contract (still assumed: SQL is outside the subset)
-    reg.contract(P, "Mailbox.commit_to_db", params={"self": "ref:Mailbox"},
-                 ensures={"row-written": "persisted(self)"},
+    # ---- commit_to_db: verified against a ghost model of this mailbox's rows (C11/C12: UID state and flags persist) -----------
+    # Ghost model: g_db_* is the mailboxes row as decoded columns, g_db_seqs the rows of the sequences table with this mailbox's id
+    # (name -> set of message keys). Every SQL statement is an assumed contract PINNED TO ITS EXACT TEXT by the dispatch regex:
+    # a statement that is edited no longer matches and the function leaves the verified subset (the check then falls back to the
+    # concrete oracles and reports what they find, or UNDECIDED).
+    reg.specfn("sset_dec", "s: str", "set[int]", "elems(seq_dec(s))", doc="the set a compact_sequence() string decodes to: the elements of expand_sequence(s)")
+    VALUES = "tuple[int,str,int,int,int,int,str,str,float,bool,opt[int]]"
+    reg.contract("asimap/utils.py", "compact_sequence", params={"keys": "list[int]"}, ret="str",
+                 ensures={"enc": "result == seq_enc(keys)",
+                          "codec": "implies(asc(keys), (len(result) == 0) == (len(keys) == 0) and implies(len(keys) > 0, seq_dec(result) == keys))"},
+                 **T, note="bounded: expand_sequence(compact_sequence(xs)) == xs exhaustively for ascending lists over 0..12 (harness.persist:Codec)")
+    reg.dynamic_dispatch[r"compact_sequence\(self\.sequences\[name\]\)"] = "utils.compact_sequence_of_set"
+    reg.contract("<utils>", "utils.compact_sequence_of_set", params={"self": "ref:Mailbox", "keys": "set[int]"}, ret="str",
+                 ensures={"codec": "sset_dec(result) == keys"}, **T, note="compact_sequence on a set of keys; same bounded codec check (sorted first)")
+    reg.dynamic_dispatch[r"self\.server\.db\.execute\('UPDATE mailboxes SET uid_vv=\?, attributes=\?, next_uid=\?,mtime=\?, num_msgs=\?, num_recent=\?, uids=\?, msg_keys=\?, last_resync=\?, subscribed=\? WHERE id=\?', values\)"] = "Database.update_mailbox_row"
+    reg.contract("<sqlite>", "Database.update_mailbox_row", params={"self": "ref:Mailbox", "sql": "str", "values": VALUES},
+                 requires={"own-row": "values[10] == self.id"},
+                 ensures={"row": "self.g_db_exists and self.g_db_uid_vv == values[0] and self.g_db_next_uid == values[2] and self.g_db_num_msgs == values[4] and self.g_db_subscribed == values[9] and "
+                                 "(len(values[6]) == 0) == (len(self.g_db_uids) == 0) and implies(len(values[6]) > 0, self.g_db_uids == seq_dec(values[6])) and "
+                                 "(len(values[7]) == 0) == (len(self.g_db_msg_keys) == 0) and implies(len(values[7]) > 0, self.g_db_msg_keys == seq_dec(values[7]))"},
                  modifies=["self.g_db_exists", "self.g_db_uid_vv", "self.g_db_next_uid", "self.g_db_uids", "self.g_db_msg_keys", "self.g_db_subscribed", "self.g_db_num_msgs"],
-                 yields=True, **T,
-                 note="A-DB + codec: UPDATE mailboxes SET ... ; COMMIT stores (uid_vv, next_uid, compact(uids), compact(msg_keys), subscribed, ...); assumed, the SQL text is not interpreted")
+                 yields=True, **T, note="A-DB: UPDATE mailboxes ... WHERE id=?: the row of this mailbox (created at activation) takes the given column values")
+    reg.dynamic_dispatch[r"self\.server\.db\.query\('SELECT name FROM sequences WHERE mailbox_id=\?', \(self\.id,\)\)"] = "Database.query_seq_names"
+    reg.contract("<sqlite>", "Database.query_seq_names", params={"self": "ref:Mailbox", "sql": "str", "params": "tuple[opt[int]]"}, ret="list[tuple[str]]",
+                 ensures={"names": "forall(lambda n: (n in self.g_db_seqs) == exists(lambda j: 0 <= j and j < len(result) and result[j][0] == n), 'str')"},
+                 yields=True, **T, note="A-DB: the names of this mailbox's rows in the sequences table")
+    reg.dynamic_dispatch[r"self\.server\.db\.execute\(f'DELETE FROM sequences  WHERE mailbox_id=\? AND name in \(\{qms\}\)', \(self\.id, \*list\(names_to_delete\)\)\)"] = "Database.delete_seq_rows"
+    reg.contract("<sqlite>", "Database.delete_seq_rows", params={"self": "ref:Mailbox", "names": "set[str]"},
+                 ensures={"deleted": "forall(lambda n: (n in self.g_db_seqs) == (n in old(self.g_db_seqs) and n not in names), 'str')",
+                          "others-kept": "forall(lambda n: implies(n not in names, get(self.g_db_seqs, n) == get(old(self.g_db_seqs), n)), 'str')"},
+                 modifies=["self.g_db_seqs"], yields=True, **T, ghost={"skip_args": True, "bind_locals": {"names": "names_to_delete"}},
+                 note="A-DB: DELETE FROM sequences WHERE mailbox_id=<this mailbox> AND name IN (<names_to_delete>): only this mailbox's rows, only those names")
+    reg.dynamic_dispatch[r"self\.server\.db\.execute\('INSERT INTO sequences\(name,mailbox_id,sequence\)   VALUES \(\?,\?,\?\)  ON CONFLICT DO UPDATE SET    sequence=\?  WHERE mailbox_id=\? AND name=\?', \(name, self\.id, sequence, sequence, self\.id, name\)\)"] = "Database.upsert_seq_row"
+    reg.contract("<sqlite>", "Database.upsert_seq_row", params={"self": "ref:Mailbox", "sql": "str", "params": "tuple[str,opt[int],str,str,opt[int],str]"},
+                 ensures={"dom": "forall(lambda n: (n in self.g_db_seqs) == (n in old(self.g_db_seqs) or n == params[0]), 'str')",
+                          "row": "get(self.g_db_seqs, params[0]) == sset_dec(params[2])",
+                          "others-kept": "forall(lambda n: implies(n != params[0], get(self.g_db_seqs, n) == get(old(self.g_db_seqs), n)), 'str')"},
+                 modifies=["self.g_db_seqs"], yields=True, **T,
+                 note="A-DB: INSERT ... ON CONFLICT DO UPDATE: afterwards this mailbox has exactly one row of that name, holding the given sequence text")
+    reg.contract(
+        P, "Mailbox.commit_to_db", params={"self": "ref:Mailbox"},
+        ensures={
+            # (the codec round trip is stated for ascending lists, which is what the class invariant gives every caller)
+            "row-written": "implies(asc(self.uids) and asc(self.msg_keys), persisted(self))",
+            # acknowledged flag changes persist: the committed rows are exactly the non-empty sequences in memory
+            "flags-written": "forall(lambda n, k: mem(self.g_db_seqs, n, k) == mem(self.sequences, n, k), 'str', 'int')",
+            "no-empty-rows": "forall(lambda n: implies(n in self.g_db_seqs, n in self.sequences), 'str')",
+            "flags-in-memory-kept": "forall(lambda n, k: mem(self.sequences, n, k) == mem(old(self.sequences), n, k), 'str', 'int')",
+        },
+        modifies=["self.sequences", "self.g_db_seqs", "self.g_db_exists", "self.g_db_uid_vv", "self.g_db_next_uid", "self.g_db_uids", "self.g_db_msg_keys", "self.g_db_subscribed", "self.g_db_num_msgs"],
+        loops={
+            0: {"invariant": {"flags-kept": "forall(lambda n, k: mem(self.sequences, n, k) == mem(lpre(self.sequences), n, k), 'str', 'int')"}},
+            1: {"invariant": {"names-so-far": "forall(lambda n: (n in old_names) == exists(lambda j: 0 <= j and j < _i and _it[j][0] == n), 'str')"}},
+            2: {"lemmas": {
+                    # when the insert loop starts no row is left whose sequence is empty or gone (deleted above, or there was none)
+                    "no-stale-rows": "forall(lambda n: implies(n in self.g_db_seqs, n in new_names), 'str')",
+                },
+                "invariant": {
+                "written-so-far": "forall(lambda n: implies(n in _it and pos(_it, n) < _i, n in self.g_db_seqs and get(self.g_db_seqs, n) == get(self.sequences, n)), 'str')",
+                "dom-so-far": "forall(lambda n: (n in self.g_db_seqs) == (n in lpre(self.g_db_seqs) or (n in _it and pos(_it, n) < _i)), 'str')",
+                "memory-kept": "same(self.sequences, lpre(self.sequences))",
+                "flags-so-far": "forall(lambda n, k: implies(n in _it and pos(_it, n) < _i, mem(self.g_db_seqs, n, k) == mem(self.sequences, n, k)), 'str', 'int')",
+                "rest-untouched": "forall(lambda n, k: implies(not (n in _it and pos(_it, n) < _i), mem(self.g_db_seqs, n, k) == mem(lpre(self.g_db_seqs), n, k)), 'str', 'int')",
+            }},
+        },
+        locals_={"old_names": "set[str]"},
+        is_async=True,
+        props=["C12", "C11", "C04"],
+        ghost={"harness": "harness.persist:CrashFlags"},
+    )
     # ---- shutdown ------------------------------------------------------------------------------
     reg.contract("<asyncio>", "Queue.get_nowait", params={"self": "ref:Queue"}, ret="ref:IMAPClientCommand",
                  raises={"QueueEmpty": "len(self.g_items) == 0"},
@@ -34,7 +98,7 @@ def declare(reg):
     reg.contract("<asyncio>", "Task.done", params={"self": "opaque:Task"}, ret="bool", **T, note="A-ASYNC")
     reg.contract("<asyncio>", "Task.cancel", params={"self": "opaque:Task"}, ret="bool", **T, note="A-ASYNC")
     reg.contract(
-        P, "Mailbox.shutdown",
+        P, "Mailbox.shutdown", uses_invariant=True,
         params={"self": "ref:Mailbox", "commit_db": "bool"},
         ensures={
             "marked-deleted": "self.deleted == True",
@@ -42,13 +106,14 @@ def declare(reg):
             "queue-released": "len(self.task_queue.g_items) == 0 and forall(lambda j: implies(0 <= j and j < len(old(self.task_queue.g_items)), old(self.task_queue.g_items)[j].ready.g_set))",
             # C12: an orderly shutdown leaves the committed row equal to the in-memory UID state
             "committed": "implies(commit_db, persisted(self))",
+            "flags-committed": "implies(commit_db, forall(lambda n, k: mem(self.g_db_seqs, n, k) == mem(self.sequences, n, k), 'str', 'int'))",
         },
         loops={0: {"invariant": {
             "released": "forall(lambda j: implies(0 <= j and j < len(old(self.task_queue.g_items)), "
                         "old(self.task_queue.g_items)[j] in self.task_queue.g_items or old(self.task_queue.g_items)[j].ready.g_set))",
             "same-queue": "self.task_queue == old(self.task_queue)",
         }}},
-        modifies=["self.deleted", "Queue.g_items", "Event.g_set", "self.g_db_exists", "self.g_db_uid_vv", "self.g_db_next_uid", "self.g_db_uids", "self.g_db_msg_keys", "self.g_db_subscribed", "self.g_db_num_msgs"],
+        modifies=["self.deleted", "self.sequences", "Queue.g_items", "Event.g_set", "self.g_db_seqs", "self.g_db_exists", "self.g_db_uid_vv", "self.g_db_next_uid", "self.g_db_uids", "self.g_db_msg_keys", "self.g_db_subscribed", "self.g_db_num_msgs"],
         is_async=True,
         props=["C12", "C06"],
     )
@@ -69,8 +134,14 @@ def declare(reg):
              "(expand(compact(xs)) == xs is the bounded codec lemma; '' encodes the empty list)",
     )
     reg.dynamic_dispatch[r"self\.server\.db\.query\('SELECT name, sequence FROM sequences WHERE mailbox_id=\?', \(self\.id,\)\)"] = "Database.query_sequences"
+    reg.specfn("py_strip", "s: str", "str", doc="str.strip(): same z3 symbol the engine uses for that call")
     reg.contract("<sqlite>", "Database.query_sequences", params={"self": "ref:Mailbox", "sql": "str", "params": "tuple[opt[int]]"}, ret="list[tuple[str,str]]",
-                 **T, yields=True, note="A-DB: rows of the sequences table for this mailbox (not interpreted here)")
+                 ensures={
+                     "one-row-per-name": "forall(lambda i, j: implies(0 <= i and i < j and j < len(result), result[i][0] != result[j][0]))",
+                     "names": "forall(lambda n: (n in self.g_db_seqs) == exists(lambda j: 0 <= j and j < len(result) and result[j][0] == n), 'str')",
+                     "texts": "forall(lambda j: implies(0 <= j and j < len(result), len(result[j][1]) > 0 and py_strip(result[j][1]) == result[j][1] and sset_dec(result[j][1]) == get(self.g_db_seqs, result[j][0])))",
+                 },
+                 **T, yields=True, note="A-DB: the rows of the sequences table with this mailbox's id: one per name, each holding the compact_sequence() text that commit_to_db stored (non-empty, digits/commas/dashes only)")
     reg.dynamic_dispatch[r"self\.server\.db\.execute\('INSERT INTO mailboxes .*"] = "Database.insert_mailbox_row"
     reg.contract("<sqlite>", "Database.insert_mailbox_row", params={"self": "ref:Mailbox", "sql": "str"}, **T, yields=True,
                  ghost={"varargs": None}, note="A-DB: creates the row for a mailbox seen for the first time")
@@ -81,6 +152,8 @@ def declare(reg):
         requires={
             # the restore path (the first-activation path that INSERTs a fresh row is not under contract)
             "row-exists": "self.g_db_exists",
+            # a mailbox object is restored once, right after it is constructed: no flags in memory yet
+            "fresh-object": "forall(lambda n, k: not mem(self.sequences, n, k), 'str', 'int')",
             # what commit_to_db wrote came from a state satisfying the representation invariant
             "row-from-inv-state": "implies(self.g_db_exists, len(self.g_db_uids) == len(self.g_db_msg_keys) and asc(self.g_db_uids) and asc(self.g_db_msg_keys))",
         },
@@ -90,8 +163,12 @@ def declare(reg):
             "uid-state-restored": "implies(not result, self.uid_vv == self.g_db_uid_vv and self.next_uid == self.g_db_next_uid and self.uids == self.g_db_uids and "
                                   "self.msg_keys == self.g_db_msg_keys and self.subscribed == self.g_db_subscribed and self.num_msgs == self.g_db_num_msgs)",
             "index-rebuilt": "implies(not result, index_of(self._msg_key_to_idx, self.msg_keys) and index_of(self._uid_to_idx, self.uids))",
+            # restore(persist(flags)) == flags: with commit_to_db's `flags-written` this is the round trip of every flag of every message
+            "flags-restored": "implies(not result, forall(lambda n, k: mem(self.sequences, n, k) == mem(self.g_db_seqs, n, k), 'str', 'int'))",
         },
         loops={1: {"invariant": {
+            "rows-done": "forall(lambda j, k: implies(0 <= j and j < _i, mem(self.sequences, _it[j][0], k) == (k in get(self.g_db_seqs, _it[j][0]))))",
+            "others-empty": "forall(lambda n, k: implies(forall(lambda j: implies(0 <= j and j < _i, _it[j][0] != n)), not mem(self.sequences, n, k)), 'str', 'int')",
             "uid-state-kept": "same(self.uids, lpre(self.uids)) and same(self.msg_keys, lpre(self.msg_keys)) and self.uid_vv == lpre(self.uid_vv) and self.next_uid == lpre(self.next_uid) "
                               "and self.subscribed == lpre(self.subscribed) and self.num_msgs == lpre(self.num_msgs) and same(self._msg_key_to_idx, lpre(self._msg_key_to_idx)) and same(self._uid_to_idx, lpre(self._uid_to_idx))",
         }}},
@@ -124,7 +201,7 @@ def declare(reg):
         modifies=["self.executing_tasks", "IMAPClientCommand.msg_set_as_set", "IMAPClientCommand.resolve_error", "Event.g_set", "Queue.g_items",
                   "self.last_resync", "self.mtime", "self.optional_resync", "self.msg_keys", "self.uids", "self.num_msgs", "self.num_recent", "self.sequences", "self.next_uid",
                   "self._msg_key_to_idx", "self._uid_to_idx", "self.attributes", "MH.g_seqs", "MH.g_keys", "MH.g_content", "*.pending_notifications", "ClientProxy.g_out",
-                  "self.g_db_exists", "self.g_db_uid_vv", "self.g_db_next_uid", "self.g_db_uids", "self.g_db_msg_keys", "self.g_db_subscribed", "self.g_db_num_msgs"],
+                  "self.g_db_seqs", "self.g_db_exists", "self.g_db_uid_vv", "self.g_db_next_uid", "self.g_db_uids", "self.g_db_msg_keys", "self.g_db_subscribed", "self.g_db_num_msgs"],
         ghost={"assume_pre_of": ["_pack_if_necessary", "check_new_msgs_and_flags", "msg_set_to_msg_seq_set"]},
         is_async=True,
         props=["C06"],
@@ -154,7 +231,7 @@ def declare(reg):
             2: {"invariant": {"done-prefix": "forall(lambda j: implies(0 <= j and j < _i, persisted(mboxes[j])))", "list-kept": "same(mboxes, lpre(mboxes))"}},
         },
         locals_={"mboxes": "list[ref:Mailbox]"},
-        modifies=["self.active_mailboxes", "Mailbox.deleted", "Queue.g_items", "Event.g_set", "Mailbox.g_db_exists", "Mailbox.g_db_uid_vv", "Mailbox.g_db_next_uid", "Mailbox.g_db_uids",
+        modifies=["self.active_mailboxes", "Mailbox.deleted", "Mailbox.sequences", "Queue.g_items", "Event.g_set", "Mailbox.g_db_seqs", "Mailbox.g_db_exists", "Mailbox.g_db_uid_vv", "Mailbox.g_db_next_uid", "Mailbox.g_db_uids",
                   "Mailbox.g_db_msg_keys", "Mailbox.g_db_subscribed", "Mailbox.g_db_num_msgs"],
         ghost={"start_at": "mboxes = []",
                "call_asserts": {"shutdown": {"orderly-shutdown-commits": "arg_commit_db"}}},
